@@ -7,6 +7,7 @@ structure TmWorld where
   now : Nat := 0
   timers : Array Tm := #[]
   self : List (Nat × Nat) := []      -- intervals whose callback cancels them after that many more runs
+  again : List (Nat × Nat) := []     -- timeouts whose callback re-arms them (Refresh) on that many more runs
 
 /-- earliest timer due by `target` that has a waiter (ties: lowest index) -/
 def nextDue (ts : Array Tm) (target : Nat) : Option (Nat × Nat) :=
@@ -21,20 +22,29 @@ def nextDue (ts : Array Tm) (target : Nat) : Option (Nat × Nat) :=
       | none => best
     | none => best) none
 
-def advanceAll : Nat → Array Tm → List (Nat × Nat) → Nat → List String → Array Tm × List (Nat × Nat) × List String
-  | 0, ts, self, _, acc => (ts, self, acc)
-  | fuel + 1, ts, self, target, acc =>
+def advanceAll : Nat → Array Tm → List (Nat × Nat) → List (Nat × Nat) → Nat → List String →
+    Array Tm × List (Nat × Nat) × List (Nat × Nat) × List String
+  | 0, ts, self, again, _, acc => (ts, self, again, acc)
+  | fuel + 1, ts, self, again, target, acc =>
     match nextDue ts target with
     | some (i, d) =>
       let ts := ts.modify i fun t => t.fire d
+      -- a callback that re-arms its own timeout
+      let ra : Array Tm × List (Nat × Nat) := match again.find? (·.1 = i) with
+        | some (_, n) =>
+          if n = 0 then (ts, again)
+          else (ts.modify i fun t => t.refresh d, again.map fun (x : Nat × Nat) => if x.1 = i then (i, n - 1) else x)
+        | none => (ts, again)
+      let ts := ra.1
+      let again := ra.2
       -- a callback that cancels its own interval on its last run
       let (ts, self) := match self.find? (·.1 = i) with
         | some (_, n) =>
           if n ≤ 1 then (ts.modify i Tm.stop, self.filter (·.1 ≠ i))
           else (ts, self.map fun x => if x.1 = i then (i, n - 1) else x)
         | none => (ts, self)
-      advanceAll fuel ts self target (acc ++ [s!"{i}@{d}"])
-    | none => (ts, self, acc)
+      advanceAll fuel ts self again target (acc ++ [s!"{i}@{d}"])
+    | none => (ts, self, again, acc)
 
 def tmAnswer (w : TmWorld) (fired : List String) : String :=
   let g := w.timers.foldl (fun n t => n + t.waiters) 0
@@ -66,15 +76,19 @@ def tmStep (w : TmWorld) (toks : List String) : TmWorld × String :=
     let w := { w with timers := setAt w.timers k.toNat! (Tm.start true p.toNat! w.now),
                       self := (w.self.filter (·.1 ≠ k.toNat!)) ++ [(k.toNat!, n.toNat!)] }
     (w, tmAnswer w [])
+  | ["timeoutself", k, p, n] =>
+    let w := { w with timers := setAt w.timers k.toNat! (Tm.start false p.toNat! w.now),
+                      again := (w.again.filter (·.1 ≠ k.toNat!)) ++ [(k.toNat!, n.toNat!)] }
+    (w, tmAnswer w [])
   | ["sleep", d] =>
     let target := w.now + d.toNat!
-    let (ts, self, fired) := advanceAll ((d.toNat! + 2) * (w.timers.size + 1)) w.timers w.self target []
-    let w := { now := target, timers := ts, self := self }
+    let (ts, self, again, fired) := advanceAll ((d.toNat! + 2) * (w.timers.size + 1)) w.timers w.self w.again target []
+    let w := { now := target, timers := ts, self := self, again := again }
     (w, tmAnswer w fired)
   | ["stopat", k, d] =>
     let target := w.now + d.toNat!
-    let (ts, self, _) := advanceAll ((d.toNat! + 2) * (w.timers.size + 1)) w.timers w.self target []
-    let w : TmWorld := { now := target, timers := ts.modify k.toNat! Tm.stop, self := self }
+    let (ts, self, again, _) := advanceAll ((d.toNat! + 2) * (w.timers.size + 1)) w.timers w.self w.again target []
+    let w : TmWorld := { now := target, timers := ts.modify k.toNat! Tm.stop, self := self, again := again }
     let g := w.timers.foldl (fun n t => n + t.waiters) 0
     (w, s!"stopat g={g}")
   | _ => (w, "bad-op")
